@@ -215,8 +215,14 @@ def roots(ctx, rec, only_refresh=True):
   if dont_care:
     return
   method = _method(cfg)
-  if method in ('lowrank', 'lobpcg'):
+  if method == 'lowrank':
     return
+  lobpcg = method == 'lobpcg'
+  if lobpcg:
+    # the reported error refers to the unconditioned problem A + d I with
+    # d = eps * max(lambda_hat, 1e-25): same oracle as Newton, no retry factor
+    method = 'newton'
+    ctx.probe('lobpcg_root_seen')
   thr = float(cfg.get('inverse_failure_threshold', 0.1))
   eps = float(cfg.get('matrix_epsilon', 1e-6))
   rel = bool(cfg.get('relative_matrix_epsilon', True))
@@ -244,7 +250,7 @@ def roots(ctx, rec, only_refresh=True):
           retries = float(np.ravel(rt)[j])
           if retries > 1:
             ctx.probe('root_retry_gt1')
-      if view.layout['max_size'] == 1:
+      if view.layout['max_size'] == 1 or lobpcg:
         retries = None
       u = U32 if not quant else 2.0 ** -15
       x64 = bool(w.plan.get('x64', True))
